@@ -34,7 +34,7 @@ use testutils::TestRepo;
 const U32MAX: u64 = u32::MAX as u64;
 const U64MAX: u64 = u64::MAX;
 const LETTERS: [&str; 3] = ["a", "b", "c"];
-const BLOCK: usize = 6;
+const BLOCK: usize = 10;
 
 type Gen = (u64, u64);
 type Pr = (u32, u32);
